@@ -49,6 +49,9 @@ def siblings(c, cases):
         plans = [("unrelated-valid-sibling", {"zz_unrelated.xsd": OTHER}, []), ("non-xml-sibling", {"00_notes.xsd": "this is not XML <<<"}, []),
                  ("case-variant-of-start-file", {swapcase_name(cs["start"]): OTHER}, []),
                  ("upper-case-extension-of-start-file", {cs["start"].rsplit(".", 1)[0] + "." + cs["start"].rsplit(".", 1)[-1].upper(): OTHER}, [])]
+        # siblings the command-line tool cannot even read as text (its own directory scan meets them; the in-process harness is not given them)
+        plans.append(("sibling-that-is-not-utf8-text", {"zz_draft.xsd": '<?xml version="1.0" encoding="UTF-16"?><draft/>'.encode("utf-16")}, []))
+        plans.append(("sibling-whose-name-is-not-utf8", {b"zz_caf\xe9.xsd": OTHER}, []))
         others = [f for f in reach if f != cs["start"]]
         if others:
             plans.append(("case-variant-of-an-imported-file", {swapcase_name(others[0]): OTHER}, []))
@@ -61,16 +64,24 @@ def siblings(c, cases):
                 continue
             d = os.path.join(os.path.dirname(cs["dir"]), f"sib{i}_{k}")
             shutil.copytree(cs["in"], os.path.join(d, "in"))
+            cli_only = False
             for n, t in add.items():
-                open(os.path.join(d, "in", n), "w").write(t)
+                if isinstance(n, bytes) or isinstance(t, bytes):
+                    cli_only = True
+                    pth = os.path.join(os.fsencode(os.path.join(d, "in")), n if isinstance(n, bytes) else os.fsencode(n))
+                    open(pth, "wb").write(t if isinstance(t, bytes) else t.encode())
+                else:
+                    open(os.path.join(d, "in", n), "w").write(t)
             for n in remove:
                 os.remove(os.path.join(d, "in", n))
-            variants.append({"dir": d, "in": os.path.join(d, "in"), "start": cs["start"], "meta": {"features": "sibling " + what, "seed": cs["meta"].get("seed")}, "ref": None, "orig": cs, "what": what})
-    g.run_impl(variants, want_obs=False, want_dump=False)
+            variants.append({"dir": d, "in": os.path.join(d, "in"), "start": cs["start"], "meta": {"features": "sibling " + what, "seed": cs["meta"].get("seed")}, "ref": None, "orig": cs, "what": what, "cli_only": cli_only})
+    g.run_impl([v for v in variants if not v["cli_only"]], want_obs=False, want_dump=False)
     fails = []
     tally = {}
     for v in variants:
         tally[v["what"]] = tally.get(v["what"], 0) + 1
+        if v["cli_only"]:
+            continue
         same = v["impl"] == v["orig"]["impl"] and v["impl"].startswith("ok") and open(v["impl_rs"], "rb").read() == open(v["orig"]["impl_rs"], "rb").read()
         if not same:
             fails.append(("unreachable-sibling-changes-output", f"{v['what']}: output with the sibling differs from the output without it ({v['orig']['impl']} vs {v['impl']}); files {sorted(os.listdir(v['in']))}, start {v['start']}", v))
@@ -93,7 +104,7 @@ def siblings(c, cases):
                 cache[id(oc)] = run_cli(oc)
             cli_runs += 1
             if run_cli(v) != cache[id(oc)]:
-                fails.append(("unreachable-sibling-changes-output", f"{v['what']} (command-line tool): output with the sibling differs from the output without it; files {sorted(os.listdir(v['in']))}, start {v['start']}", v))
+                fails.append(("unreachable-sibling-changes-output", f"{v['what']} (command-line tool): output with the sibling differs from the output without it; files {sorted(os.listdir(os.fsencode(v['in'])))}, start {v['start']}", v))
     else:
         c.proof["errors"].append("the zeep binary does not build: " + (out + err)[-300:])
     c.cov["unreachable_siblings"] = {"base_inputs": len(base), "variants": tally, "cli_runs": cli_runs, "differing": len(fails)}
